@@ -251,12 +251,12 @@ def classify_raise(ex, tb, tag_names):
         return None
     t = m.group(1)
     callers = [f.name for f in tb]
-    if t not in tag_names and t.lower() in {n.lower() for n in tag_names}:
-        # the undefined name is a pure re-casing of a defined tag name
+    if t not in tag_names and t.lower() in {n.lower() for n in tag_names} and len(t) > 2 and similar(t, tag_names) <= 0.7:
+        # the undefined name is a pure re-casing of a defined tag name that is not similar to it case-sensitively
         if "analyze_condition" in callers[-2:]:
-            return "C19.recased_tag_raises_in_condition_check"
+            return "C19.recased_dissimilar_tag_raises_in_condition_check"
         if "visit_SimulateNode" in callers[-2:]:
-            return "C19.recased_tag_raises_in_simulate_check"
+            return "C19.recased_dissimilar_tag_raises_in_simulate_check"
         return None
     if len(t) <= 2 or t in tag_names or not tag_names or similar(t, tag_names) > 0.7:
         return None
@@ -272,8 +272,11 @@ def classify_missing(kind, nm, line, tag_names, cmd_names):
     in the non-empty tag set and without a similar name -> no item at all."""
     r = ref_line(line)
     names = tag_names if kind == "undefined_tag" else cmd_names
-    if kind != "incomplete_condition" and nm not in names and nm.lower() in {n.lower() for n in names}:
-        return "C19.recased_tag_not_reported" if kind == "undefined_tag" else "C19.recased_command_not_reported"
+    if kind != "incomplete_condition" and nm not in names and nm.lower() in {n.lower() for n in names} and len(nm) > 2 \
+            and similar(nm, names) <= 0.7:
+        # a re-casing that the case-sensitive similarity test does not regard as a typo of the defined name
+        return ("C19.recased_dissimilar_tag_not_reported" if kind == "undefined_tag"
+                else "C19.recased_dissimilar_command_not_reported")
     if kind == "undefined_tag" and r and r[0] == "instr" and r[1] == "Simulate off" and len(nm) > 2 and tag_names \
             and similar(nm, tag_names) <= 0.7:
         return "C19.simulate_off_unknown_dissimilar_tag_not_reported"
